@@ -327,6 +327,29 @@ class R:
         g.emit("cadd64 %s %d" % (y, self.val(homes, anchors)))
         g.emit("dig64 %s" % x)
 
+    def iter_gap_episode(self):
+        """AdvanceIfNeeded into a bucket that is ABSENT (a later bucket holds smaller low bits), and a backwards advance from a
+        later bucket with larger low bits than the pending value"""
+        g, r = self.g, self.r
+        b = r.choice([0, 5, 0x7FFFFFFF, 0xFFFFFFF0])
+        x = g.fresh("e")
+        g.emit("new64 %s" % x)
+        g.emit("addmany64 %s %s" % (x, " ".join(str(v) for v in [(b << 32) + 7, (b << 32) + 9, ((b + 2) << 32) + 3, ((b + 2) << 32) + 100,
+                                                                   ((b + 2) << 32) + 70000, ((b + 5) << 32) + 1])))
+        for m in [((b + 1) << 32) + 50, ((b + 1) << 32) + 0xFFFFFFFF, ((b + 3) << 32) + 5000, ((b + 2) << 32) + 50]:
+            i = g.fresh("i")
+            g.emit("it64 %s %s" % (i, x))
+            g.emit("adv64 %s %d" % (i, m))
+            g.emit("drain64 %s 9" % i)
+        # backwards: stand in bucket b+2 (pending low bits 100), advance to a target in an earlier bucket with larger low bits
+        i = g.fresh("i")
+        g.emit("it64 %s %s" % (i, x))
+        g.emit("adv64 %s %d" % (i, ((b + 2) << 32) + 100))
+        g.emit("adv64 %s %d" % (i, (b << 32) + 5000))
+        g.emit("adv64 %s %d" % (i, ((b + 1) << 32) + 0xFFFFFFF0))
+        g.emit("drain64 %s 9" % i)
+        g.count("iter64:gap-episode")
+
     def boundary_episode(self):
         """range operations whose END (or start) sits exactly on a bucket boundary, with buckets present on both sides"""
         g, r = self.g, self.r
@@ -360,6 +383,7 @@ class R:
     def suite_hist(self, nhist, steps):
         g, r = self.g, self.r
         self.boundary_episode()
+        self.iter_gap_episode()
         for _ in range(nhist):
             x = g.fresh("h")
             if r.random() < 0.6:
